@@ -84,11 +84,13 @@ class Pages(Files):
                 if_modified_since = v.decode("latin-1")
         filepath = self.ensure_absolute_path(scope["path"])
         stat_result, is_file = self.check_path_is_file(filepath)
+        html_fallback = False
         if (
             stat_result is None  # filepath is not exist
             and filepath is not None  # Just for type check
             and not filepath.endswith(".html")  # filepath is not a html file
         ):
+            html_fallback = True  # only a regular file may answer for `path + ".html"`
             filepath += ".html"
             stat_result, is_file = self.check_path_is_file(filepath)
 
@@ -98,7 +100,11 @@ class Pages(Files):
                 return await self.file_response(
                     filepath, stat_result, if_none_match, if_modified_since
                 )(scope, receive, send)
-            if stat.S_ISDIR(stat_result.st_mode) and not scope["path"].endswith("/"):
+            if (
+                stat.S_ISDIR(stat_result.st_mode)
+                and not html_fallback
+                and not scope["path"].endswith("/")
+            ):
                 url = URL(scope=scope)
                 url = url.replace(scheme="", path=url.path + "/")
                 return await RedirectResponse(url)(scope, receive, send)
